@@ -50,6 +50,18 @@ def field_specials(name, w):
     for v in SENTINELS.get(name, []):
         if v < (1 << w):
             vals.add(v)
+    if name in ("lon", "lat"):
+        # the sentinel of the OTHER resolution and of the other coordinate (1/10000 min: 108 600 000 / 54 600 000; 1/10 min:
+        # 108 600 / 54 600), signed both ways, where the field can hold it: an ordinary position at this resolution
+        for c in (108600000, 54600000, 108600, 54600, 181, 91, 1810, 910, 181000, 91000):
+            for v in (c, -c, c + 1, c - 1):
+                if -(1 << (w - 1)) <= v < (1 << (w - 1)):
+                    vals.add(v % (1 << w))
+    if name in ("sog", "cog", "heading", "altitude"):
+        # the codes other fields and other message types use
+        for c in (63, 511, 1023, 3600, 4095, 360, 3599, 3601):
+            if c < (1 << w):
+                vals.add(c)
     # the 'not available' code with any one bit flipped (a comparison that ignores a bit, the sign bit above all)
     for c in codes:
         for b in range(w):
